@@ -336,7 +336,7 @@ pub fn main(args: &[String]) {
                 &[b"0", b"65535", b"65536", b"+1", b"01", b""]
             };
             let seps: &[&[u8]] = &[b" ", b"  ", b"\r"];
-            let ends: &[&[u8]] = &[b"\r\n", b"\r", b"\n", b" \n", b"", b"\rX", b"\r\r", b"\r\xc3\xa9", b"\r\nGET", b" \r\n"];
+            let ends: &[&[u8]] = &[b"\r\n", b"\r", b"\n", b" \n", b"", b"\rX", b"\r\r", b"\r\xc3\xa9", b"\r\nGET", b" \r\n", b" \n\r\n", b" \n x\r\n"];
             std::thread::scope(|sc| {
                 for kw in kws {
                     for proto in protos {
